@@ -64,7 +64,7 @@ Numeric == {"integer", "float", "complex"}
 ---------------------------------------------------------------------------
 (* value classes *)
 StrCells == {"plain", "plain2", "empty", "dash", "word", "slashed", "numeric", "innerspace",
-             "hash", "unicode", "squote", "hasdelim", "hasquote", "hasboth", "nullword",
+             "hash", "unicode", "squote", "hasdelim", "hasquote", "leadquote", "hasboth", "nullword",
              "tilde", "boolword", "intcanon", "numnoncanon", "nanword", "yamlsyntax",
              "yamlcomment", "fence", "backslash", "padded", "multiline"}
 OutsideStr == {"padded", "multiline"}
@@ -289,7 +289,7 @@ WithName(fs, i, n) == [fs EXCEPT ![i].name = n]
 
 DMQuick2 == {<<"comma", "dash">>, <<"tab", "empty">>}
 DMThorough2 == {<<"comma", "dash">>, <<"tab", "empty">>, <<"colon", "numeric">>}
-DMThree == {<<"semicolon", "word">>, <<"pipe", "slashed">>}
+DMThree == {<<"semicolon", "word">>, <<"pipe", "slashed">>, <<"space", "dash">>}
 
 RawSchemas ==
   IF Thorough
@@ -300,6 +300,7 @@ RawSchemas ==
        \cup {Sch(AllKeys, d, "dash", fs) : d \in Delims, fs \in One(FieldSpecs)}
        \cup {Sch(AllKeys, dm[1], dm[2], fs) : dm \in DMQuick2, fs \in Two(LiteSpecs)}
        \cup {Sch(AllKeys, "semicolon", "word", fs) : fs \in Three(Defaults)}
+       \cup {Sch(AllKeys, dm[1], dm[2], fs) : dm \in {<<"space", "dash">>, <<"squote", "word">>}, fs \in Two(Defaults)}
        \cup {Sch(AllKeys, dm[1], dm[2], fs) : dm \in {<<"space", "innerspace">>, <<"space", "blank">>, <<"squote", "squote">>,
                                                        <<"space", "word">>, <<"squote", "empty">>},
                                                fs \in One(Defaults)}
